@@ -52,6 +52,10 @@ func (c03) Plan(tier string, seed int64) []core.Scenario {
 		out = append(out, core.Scenario{Kind: "busy-blackhole", Seed: seed*7873 + int64(i) + 500, N: map[string]int{"every": []int{100, 40}[i%2], "noise": i % 3, "midframe": 1}, S: map[string]string{}})
 	}
 	out = append(out, core.Scenario{Kind: "stalled-write", Seed: seed * 7867, N: map[string]int{"mb": 32}, S: map[string]string{}})
+	if tier == "thorough" {
+		// a stall of 13 s that heals while a large request is being written (default options: pings 5 s, timeout 30 s)
+		out = append(out, core.Scenario{Kind: "healing-stall", Seed: seed * 7829, N: map[string]int{"mb": 32, "secs": 13}, S: map[string]string{}})
+	}
 	// a client without pings (WithPingInterval(0)) but with a timeout: the read deadline is its only detector
 	for i := 0; i < 2; i++ {
 		out = append(out, core.Scenario{Kind: "noping-blackhole", Seed: seed*7841 + int64(i), N: map[string]int{"inflight": 1 + i, "noise": i}, S: map[string]string{}})
@@ -87,6 +91,8 @@ func (c03) Run(sc core.Scenario) core.Result {
 		runLossAt(sc, r3)
 	case "noping-blackhole":
 		runNoPingBlackhole(sc, r3)
+	case "healing-stall":
+		runHealingStall(sc, r3)
 	default:
 		runFault(sc, r3, r4)
 	}
@@ -856,4 +862,46 @@ func runNoPingBlackhole(sc core.Scenario, r *core.R) {
 	r.Obs("calls", int64(len(held)))
 	r.Sig(core.Log.Signature())
 	r.Sample(map[string]interface{}{"scenario": "black hole on a client without pings", "calls_in_flight": len(held)})
+}
+
+// runHealingStall: the path from client to server stalls for a while (shorter than the timeout) while a request
+// larger than the socket buffers is being written, then heals. Nothing was lost, so the big call returns its
+// result and the connection keeps working.
+func runHealingStall(sc core.Scenario, r *core.R) {
+	env := NewEnv(EnvOpt{})
+	defer env.Shutdown()
+	cl, err := env.NewClient(ClientOpt{})
+	if err != nil {
+		r.Inconclusive("client: %v", err)
+		return
+	}
+	bg := context.Background()
+	w := Tok("w")
+	if v, err := cl.Echo(bg, w, ""); err != nil || v != svc.Reply(w) {
+		r.Inconclusive("warm-up: %v", err)
+		return
+	}
+	env.Px.SetPause(wsproxy.C2S, true)
+	t := Tok("b")
+	big := Go(t, func() (string, error) { return cl.Echo(bg, t, strings.Repeat("p", sc.I("mb")<<20)) })
+	time.Sleep(time.Duration(sc.I("secs")) * time.Second)
+	accBefore := env.Px.Accepts()
+	env.Px.SetPause(wsproxy.C2S, false)
+	where := fmt.Sprintf("client-to-server path stalled for %d s (pings 5 s, timeout 30 s) while a %d MiB request was being written, then healed", sc.I("secs"), sc.I("mb"))
+	if !big.Wait(5 * core.Grace) {
+		r.Violate("lost-call:healed-stall", "%s: the big call is still blocked %v after the path healed; events: %s", where, 5*core.Grace, core.Log.TailFiltered(20, "px.frame"))
+	} else if big.Err != nil && env.Px.Accepts() == accBefore {
+		r.Violate("lost-call:healed-stall", "%s: the big call failed (%v) although the connection was never lost", where, big.Err)
+	}
+	t2 := Tok("s")
+	small := Go(t2, func() (string, error) { return cl.Echo(bg, t2, "") })
+	if !small.Wait(2 * core.Grace) {
+		r.Violate("lost-call:healed-stall", "%s: a later small call blocks on the healed link", where)
+	}
+	if !probeUntilHealthy(cl, r, 2*core.Grace) {
+		r.Violate("lost-call:probe", "%s: the client is not usable afterwards", where)
+	}
+	r.Key("healing-stall", true)
+	r.Obs("calls", 3)
+	r.Sample(map[string]interface{}{"scenario": where, "big_call_error": errStr(big.Err), "redials": env.Px.Accepts() - accBefore})
 }
